@@ -190,6 +190,8 @@ func execute(kind, path string, options map[string]string) execOut {
 			impl, ex.schema, ex.err = json.Creator(ctx, path, options)
 		case "csv":
 			impl, ex.schema, ex.err = csv.Creator(',')(ctx, path, options)
+		case "tsv":
+			impl, ex.schema, ex.err = csv.Creator('\t')(ctx, path, options)
 		}
 	}()
 	if ex.panicked {
@@ -613,6 +615,8 @@ type csvCase struct {
 	f       *fileh.CSVFile
 	devs    []string
 	trickyN int
+	shared  bool // shared-text file (shared.go)
+	tsv     bool
 }
 
 func genCSVCase(rng *rand.Rand, id string) csvCase {
@@ -664,16 +668,30 @@ func genCSVCase(rng *rand.Rand, id string) csvCase {
 }
 
 func runCSVCase(c *core.Ctx, rng *rand.Rand, id string) {
-	cs := genCSVCase(rng, id)
+	var cs csvCase
+	kind := "csv"
+	switch {
+	case strings.HasPrefix(id, "csvshared-"):
+		k, _ := strconv.Atoi(strings.TrimPrefix(id, "csvshared-"))
+		cs = genSharedCSVCase(rng, id, k, false)
+		c.Count("inproc/csv/shared_text_files", 1)
+	case strings.HasPrefix(id, "tsvshared-"):
+		k, _ := strconv.Atoi(strings.TrimPrefix(id, "tsvshared-"))
+		cs = genSharedCSVCase(rng, id, k, true)
+		kind = "tsv"
+		c.Count("inproc/tsv/shared_text_files", 1)
+	default:
+		cs = genCSVCase(rng, id)
+	}
 	c.Eval(1)
 	c.Count("inproc/csv/files", 1)
-	path := filepath.Join(c.Scratch, id+".csv")
+	path := filepath.Join(c.Scratch, id+"."+kind)
 	if err := os.WriteFile(path, cs.f.Content, 0o644); err != nil {
 		c.Inconclusive("scratch-write")
 		return
 	}
 	defer os.Remove(path)
-	ex := execute("csv", path, map[string]string{})
+	ex := execute(kind, path, map[string]string{})
 	replay := map[string]interface{}{"id": id, "kind": "csv", "rows": len(cs.f.Rows), "deviations": cs.devs, "schema": schemaString(ex.schema.Fields),
 		"file": trunc(string(cs.f.Content), 30000), "rerun": "./check C24 <tier> --only " + id}
 	if ex.timedOut {
@@ -761,7 +779,7 @@ func runCSVCase(c *core.Ctx, rng *rand.Rand, id string) {
 				_, ierr := strconv.ParseInt(cell, 10, 64)
 				_, ferr := strconv.ParseFloat(cell, 64)
 				numeric := (ierr == nil && fileh.AdmitsID(t, octosql.TypeIDInt)) || (ferr == nil && fileh.AdmitsID(t, octosql.TypeIDFloat))
-				if numeric && rec[j].TypeID == octosql.TypeIDString && rec[j].Str == cell && !selftest {
+				if !cs.shared && numeric && rec[j].TypeID == octosql.TypeIDString && rec[j].Str == cell && !selftest {
 					addClass("csv-inference-execution-parser-mismatch", desc)
 				} else {
 					addClass("csv:type-mismatch", desc)
@@ -782,10 +800,10 @@ func runCSVCase(c *core.Ctx, rng *rand.Rand, id string) {
 		c.Violation(k, what+strings.Join(whats, "; "), replay)
 	}
 	if len(cs.f.Rows) > preview || len(cs.devs) > 0 || cs.trickyN > 0 {
-		c.Nontrivial("csv|" + string(cs.f.Content))
+		c.Nontrivial(kind + "|" + string(cs.f.Content))
 	}
 	if len(classes) == 0 {
-		c.Sample(map[string]interface{}{"id": id, "kind": "csv", "rows": len(cs.f.Rows), "deviations": cs.devs, "schema": schemaString(ex.schema.Fields), "cells_checked": cells})
+		c.Sample(map[string]interface{}{"id": id, "kind": kind, "rows": len(cs.f.Rows), "deviations": cs.devs, "schema": schemaString(ex.schema.Fields), "cells_checked": cells})
 	}
 }
 
@@ -797,6 +815,10 @@ func Run(c *core.Ctx) core.FinishOpts {
 	ids := []string{}
 	for i := 0; i < n; i++ {
 		ids = append(ids, fmt.Sprintf("json-%d", i), fmt.Sprintf("csv-%d", i))
+	}
+	// shared-text files: every ordered pair of union-typed column kinds, CSV and TSV (both tiers)
+	for k := range sharedVariants() {
+		ids = append(ids, fmt.Sprintf("csvshared-%d", k), fmt.Sprintf("tsvshared-%d", k))
 	}
 	core.Parallel(len(ids), 8, func(k int) {
 		id := ids[k]
@@ -815,7 +837,7 @@ func Run(c *core.Ctx) core.FinishOpts {
 		Level: "exploration",
 		Rule: "files = 1-4 columns of a kind (scalar, nullable, list, object, mixed, tricky numeric spellings); 1..120 conforming rows (some files lack a key in some preview rows), then 0..70 later rows of which " +
 			"2/3 deviate when they lie beyond the 100-row preview (other kind, null, missing key, object with new/missing field, non-time in a Time column, list element of another kind, empty CSV cell, " +
-			"cells on which strconv and fastfloat disagree); CLI leg: --describe -o json vs -o json; non-trivial = more than 100 rows, or a deviation, or a tricky cell; distinct by file content",
+			"cells on which strconv and fastfloat disagree); plus, in both tiers, CSV and TSV files with two union-typed columns (every ordered pair of Int|String, Float|String, Boolean|Int|String, Time|String, Boolean|String) that share cell texts beyond the preview in both row orders; CLI leg: --describe -o json vs -o json; non-trivial = more than 100 rows, or a deviation, or a tricky cell; distinct by file content",
 		Floor: c.Pick(100, 3000),
 		Assumptions: []string{"representable = some alternative of the reported column type admits the cell (numbers/bools/times as strconv / time.Parse read them, as the inference does)",
 			"own matches(value, type); own parser of the type strings --describe prints", "a JSON column that is [] in the whole preview and non-empty later is exercised only through the CLI (it kills a worker goroutine)"},
